@@ -50,6 +50,29 @@ CLAIMS = {
         note=COMMON_NOTE + 'Value-sequence closed forms are over exact arithmetic (Q / Z); binary64 accumulation of the increment is what the runs compare bit for bit. Index-variable and light-variable binding inside the generic loop driver is covered by the runs, not yet by a general theorem.',
         technique='Coq proofs by induction on the iteration count over the reference semantics; closed forms over Q; oracle and correspondence runs',
         design='DESIGN.md 7 C04'),
+    'C12': dict(
+        text=('Retry decorator and the device layer modelled over per-request fault plans: for every n, tries makes at most n attempts and '
+              'gives up exactly when the first n all fail; every request of every run is attempted at most three times and never re-sent '
+              'after an answer; for all command lists, directories, plans and states the run never aborts because of a device outcome, an '
+              'unknown name or a capability mismatch (only the script\'s own out-of-range row/column numbers abort); unknown and wrong-type '
+              'targets change nothing; every device the plan leaves alone receives exactly the calls of the fault-free run (excluding runs '
+              'whose register flow depends on an abandoned get, shown necessary); discovery is total and a failed one keeps the directory. '
+              'Which methods carry @tries, the bound and the fail values are read from the source on every run; production wrappers run over '
+              'a simulated network with exhaustive prefix fault patterns.'),
+        note=COMMON_NOTE + 'Command-sequence level (programs reach it through the VM model of C01); the simulated network never hangs; logging of abandoned requests is observed by the harness only.',
+        technique='Coq proof over fault plans (induction over command lists and attempt streams); shape/decorator tie by translator; exhaustive fault enumeration runs',
+        design='DESIGN.md 7 C12'),
+    'C20': dict(
+        text=('Model of WebApp/FrontEnd over an abstract job controller with URL resolution in blueprint order; theorems for all manifests and '
+              'all request/completion histories: only manifest-listed files are ever handed to the controller, under the entry\'s path; an '
+              'unlisted path starts nothing; a running script is not restarted; documented default path/title derivation (str.title modelled); '
+              'html.escape proved to remove every metacharacter and to be injective, applied to the five escaped fields of every page view; '
+              'stop / stop-current / stop-all target exactly the named, current, all jobs; status and capture render. Route table, escaped '
+              'field list and method texts tied to the source by the translator; real WebApp + FrontEnd + JobControl + ScriptJob run against a '
+              'Flask stub with hostile manifests.'),
+        note=COMMON_NOTE + 'Flask is stubbed (Blueprint, render_template, request); that pages render without a Python exception is exhibited by the differential runs only; job execution is gated for determinism.',
+        technique='Coq proof: invariant over request histories, refinement model => spec, string lemmas for html.escape/str.title; shape-tied model; oracle and correspondence runs',
+        design='DESIGN.md 7 C20'),
     'C13': dict(
         text=('Model of SortedList and LightSet with the invariant dir_inv proved for every reachable state (any history length, any strings), '
               'boolean invariant proved equivalent and evaluated on the real state after every step; expiry removes exactly the lights older '
